@@ -162,7 +162,13 @@ Fixpoint pages_obs (fuel : nat) (sorted : bool) (st : sess) (id start maxr : N) 
     end
   end.
 
-Definition sess_step (sorted : bool) (file : list cmsg) (st : sess) (o : sop) : sess * otree :=
+(* searches and lookups are asked in settled states only *)
+Definition needs_settled (o : sop) : bool :=
+  match o with SSearch _ _ _ _ | SPages _ _ _ _ | SLookIdx _ _ | SLookTime _ _ => true | _ => false end.
+
+Definition sess_step (sorted : bool) (file : list cmsg) (st0 : sess) (o : sop) : sess * otree :=
+  let st := if needs_settled o && negb (ss_loaded st0)
+            then match do_settle sorted file st0 with Some s => s | None => st0 end else st0 in
   match o with
   | SNew settle is_stream binary fs start end_ =>
       match apply sorted st [ONew is_stream binary (cfset fs) start end_] with
@@ -246,19 +252,28 @@ Definition run_sess (sorted preload : bool) (file : list cmsg) (ops : list sop) 
 Definition o_bres (r : bres) : otree := match r with BOk i => T [L 0; L i] | BErr i => T [L 1; L i] end.
 
 (* ------------------------------------------------------------------ cases *)
+(* the file of a session in all_msgs order, run-length encoded: (count, ecu, apid, ctid, t0, dt, idx0);
+   time and index advance linearly inside a run *)
+Definition frun := (N * N * N * N * N * N * N)%type.
+Fixpoint expand_file (l : list frun) : list cmsg :=
+  match l with
+  | [] => []
+  | (cnt, e, a, c, t0, dt, i0) :: r =>
+      map (fun k => {| c_ecu := e; c_apid := a; c_ctid := c; c_time := t0 + N.of_nat k * dt; c_index := i0 + N.of_nat k |})
+          (seq 0 (N.to_nat cnt))
+      ++ expand_file r
+  end.
+
 Inductive case_C16 :=
 | CLib (is_stream : bool) (fs : list cfilt) (start end_ : N) (log : list (N * N * N)) (calls : list lcall)
-| CSess (sorted preload : bool) (file : list (N * N * N * N * N)) (ops : list sop)
+| CSess (sorted preload : bool) (file : list frun) (ops : list sop)
 | CBs (l : list N) (key : N).
-
-Definition mk_cmsg (t : N * N * N * N * N) : cmsg :=
-  let '(e, a, c, tm, i) := t in {| c_ecu := e; c_apid := a; c_ctid := c; c_time := tm; c_index := i |}.
 
 Definition run_C16 (c : case_C16) : otree :=
   match c with
   | CLib is_stream fs start end_ log calls =>
       T (run_lib (expand log) 0 (new_ctx 0 is_stream true (cfset fs) start end_) calls)
-  | CSess sorted preload file ops => run_sess sorted preload (map mk_cmsg file) ops
+  | CSess sorted preload file ops => run_sess sorted preload (expand_file file) ops
   | CBs l key =>
       T [o_bres (std_bsearch (fun x => N.compare x key) l); L (partition_point (fun x => x <? key) l)]
   end.
